@@ -1199,6 +1199,11 @@ func verifStageGen(r *gen.Rand) []vsOp {
 		for _, t := range req {
 			data := append([]byte{}, t.f.content[t.b:t.e]...)
 			op := vsOp{kind: "RC", part: vsPart{name: t.f.name, renamed: t.f.renamed, prev: t.f.prev, hash: t.f.hash, size: int64(len(t.f.content)), beg: int64(t.b), end: int64(t.e), time: t.f.time}}
+			if t.b > 0 && r.Chance(1, 12) {
+				// the sender works out the predecessor per chunk: a later chunk of the same version may
+				// announce another one (the file before it was dropped from the queue, or one was inserted)
+				op.part.prev = []string{"", "q/other"}[r.Intn(2)]
+			}
 			if profile == 7 {
 				switch r.Intn(8) {
 				case 0: // byte flipped in transit
